@@ -229,6 +229,13 @@ def check_multi(case, out):
             os.mkdir(os.path.join(wd, 'archive'))
             names.insert(1, os.path.join(wd, 'archive'))
             out.classes.append('directory-among-the-inputs')
+        if case.get('with_junk'):
+            # ... nor is a file that holds no interchange (empty, or some text)
+            junk = os.path.join(wd, 'notes.txt')
+            with open(junk, 'w', encoding='ascii', newline='') as fh:
+                fh.write('' if case['with_junk'] == 1 else 'not an interchange\n')
+            names.insert(1, junk)
+            out.classes.append('non-interchange-among-the-inputs')
         argv = (['-e'] if eol else []) + (['-f'] if fix else []) + (['-i'] if mode == 'inplace' else []) + (['-o', dst] if mode == 'outfile' else []) + names
         so, exc = run_norm(argv)
         if exc is not None:
@@ -366,7 +373,8 @@ def strategy(tier):
         if name != 'in.x12':
             classes.add('file-name-with-pattern-characters')
         return {'text': text, 'eol': draw(st.booleans()), 'fix': fix, 'mode': draw(st.sampled_from(['stdout', 'outfile', 'inplace'])),
-                'text2': text2, 'name': name, 'with_dir': bool(text2) and draw(st.integers(0, 2)) == 0, 'meta': {'classes': sorted(classes), 'defects': defects, 'others': others}}
+                'text2': text2, 'name': name, 'with_dir': bool(text2) and draw(st.integers(0, 2)) == 0,
+                'with_junk': draw(st.sampled_from([0, 0, 0, 1, 2])) if text2 else 0, 'meta': {'classes': sorted(classes), 'defects': defects, 'others': others}}
 
     return gen()
 
